@@ -99,6 +99,17 @@ CHECKS["C17"] = dict(
   technique="Lean 4 proof (parser/renderer round trip, merger invariants, config decoding) + differential correspondence on three input streams with crash detection (go test -overlay, child processes)",
   design="§10 C17")
 
+CHECKS["C16"] = dict(
+  text="Lean theorems over every history of probe results, traffic reports, forced reports, ignorable/cancelled errors, reload suppression windows and snapshot/restore steps over all six health domains, for nodes shared by any number of groups: an alive->dead transition happens only at the k-th consecutive counted failure (1 TCP probe / 3 UDP probes / 10 TCP / 50 UDP traffic failures) with no success in between, on a forced report, a restore, or the three-deaths escalation that takes all six domains down (dead_only_after_threshold, threshold_reached_kills, below_threshold_stays, escalation_only_after_three_deaths); any successful probe (data-UDP: traffic) revives and clears the counts; cancellation/teardown/suppressed failures never count; exactly one transition callback per actual flip; every registered set lists a member exactly when it is alive; the kernel connectivity bit of a latency-policy group is 0 exactly when its set is empty (kernel_bit, unconditional after fixes 307ce76/addc261); a reload hands over alive flags and latencies with counters cleared and leaves every non-empty group a selectable node. Tied to /repo by the real Dialer.Check loop / Report* / suppression / RestoreHealthSnapshot and real DialerGroup objects under synctest, plus the real outboundAliveChangeCallback writing a real BPF array map (bpf(2) works in this sandbox).",
+  note="Trusted: Lean kernel + standard axioms; the latency a set reads (snapshotLatencyForPolicy incl. back-off penalty) is an oracle input (theorems hold for all values); events are serialised (no concurrent reports); probes enter as events (scheduler/jitter not modelled).",
+  technique="Lean 4 proof (invariants over event histories) + differential correspondence (go test -overlay, synctest, real BPF array map)",
+  design="§10 C16")
+CHECKS["C06"] = dict(
+  text="Lean theorems: for every byte string the TLS walk is total with no out-of-bounds access (tls_total, tls_record_total); every well-formed ClientHello (any extension order, GREASE, padding, session id, several SNI entries) yields its first host_name and any reported name is literally a host_name entry of the input (tls_sni_found, tls_sni_sound); any cutting into reads after the 5-byte record header gives the whole-record answer (sniff_tcp_chunk_invariant); HTTP/1 Host of any request head; QUIC: any framing of the handshake into CRYPTO frames (cuts, reorder, overlap, padding, varint widths, any number of packets) that covers it reassembles to the message and yields the carried name, reassembly keeps only slices of the stream, in-place unprotect + restore is the identity on the datagram; whatever the outcome (found, not found, not applicable, timed out, EOF, reset) the relayed bytes equal the client's bytes (relay_identity), a stall ends sniffing with nothing latched, buffered datagrams of a flow are forwarded in ingress order and nothing is withheld once the ClientHello is complete (udp_flow_in_order, udp_not_withheld_when_complete). Tied to /repo by white-box runs of the sniffing package on exact-capacity slices (a stray index is a panic), a real ConnSniffer over scripted conns, QUIC Initials sealed by an independent RFC 9001/9369 encoder, and the real handlePkt with a recording outbound.",
+  note="Trusted: Lean kernel + standard axioms; AES/HKDF/GCM are an oracle (answers from the real code); scripted conns stand for sockets (real-time deadlines not covered); QUIC packet-header walk is tied, no round-trip theorem; single-flow handlePkt model.",
+  technique="Lean 4 proof (parser soundness/totality, reassembly, replay identity) + differential correspondence (go test -overlay, independent RFC encoders)",
+  design="§10 C06")
+
 def main():
     checks = []
     for pid in ALL:
